@@ -73,12 +73,13 @@ VARIABLES role,     \* "F" follower, "C" candidate, "L" leader, "D" down (crashe
           nprop, ncrash, ndrop, ndup, nhb,   \* budgets
           elected,  \* history: set of <<term, id>>
           gc,       \* history: global committed prefix
-          lcok,     \* history: every elected leader held gc when elected
+          gct,      \* history: gct[k] = term in which gc[k] became committed (term of the first node whose commit covered k)
+          lcok,     \* history: every leader elected in term T held every entry committed in a term < T
           act       \* the action that produced this state (output only; not in VIEW)
 
 nodeVars == <<role, term, vote, lead, log, commit, applied, hs, sc, votes, pr>>
-vars == <<role, term, vote, lead, log, commit, applied, hs, sc, votes, pr, net, nprop, ncrash, ndrop, ndup, nhb, elected, gc, lcok, act>>
-view == <<role, term, vote, lead, log, commit, applied, hs, sc, votes, pr, net, nprop, ncrash, ndrop, ndup, nhb, elected, gc, lcok>>
+vars == <<role, term, vote, lead, log, commit, applied, hs, sc, votes, pr, net, nprop, ncrash, ndrop, ndup, nhb, elected, gc, gct, lcok, act>>
+view == <<role, term, vote, lead, log, commit, applied, hs, sc, votes, pr, net, nprop, ncrash, ndrop, ndup, nhb, elected, gc, gct, lcok>>
 
 N == Cardinality(Server)
 Quorum == IF W_QuorumMinusOne THEN N \div 2 ELSE N \div 2 + 1
@@ -188,11 +189,14 @@ Update(i, r, t, v, ld, lg, c, vts, P, wrote) ==
     /\ votes' = [votes EXCEPT ![i] = vts]
     /\ pr' = [pr EXCEPT ![i] = IF r = "L" THEN P ELSE NoPr]
     /\ gc' = IF c > Len(gc) THEN SubSeq(lg, 1, c) ELSE gc
+    /\ gct' = IF c > Len(gc) THEN gct \o [k \in 1..(c - Len(gc)) |-> t] ELSE gct
     /\ Len(lg) <= MaxLog
 
 Hist(i, r, t, lg) ==
     /\ elected' = IF r = "L" /\ role[i] # "L" THEN elected \cup {<<t, i>>} ELSE elected
-    /\ lcok' = IF r = "L" /\ role[i] # "L" THEN lcok /\ Len(lg) >= Len(gc) /\ SubSeq(lg, 1, Len(gc)) = gc ELSE lcok
+    /\ lcok' = IF r = "L" /\ role[i] # "L"
+             THEN lcok /\ \A k \in 1..Len(gc) : gct[k] < t => (k <= Len(lg) /\ lg[k] = gc[k])
+             ELSE lcok
 
 Budgets == UNCHANGED <<nprop, ncrash, ndrop, ndup, nhb>>
 
@@ -213,7 +217,7 @@ Init ==
     /\ pr = [i \in Server |-> NoPr]
     /\ net = <<>>
     /\ nprop = 0 /\ ncrash = 0 /\ ndrop = 0 /\ ndup = 0 /\ nhb = 0
-    /\ elected = {} /\ gc = <<>> /\ lcok = TRUE
+    /\ elected = {} /\ gc = <<>> /\ gct = <<>> /\ lcok = TRUE
     /\ act = [name |-> "Init"]
 
 (* RawNode.Campaign(): MsgHup -> hup -> campaign(campaignElection) *)
@@ -257,7 +261,7 @@ Heartbeat(i) ==
                           IF W_HeartbeatCommitUnbounded THEN commit[i] ELSE Min2(pr[i][j].match, commit[i]), FALSE, 0, <<>>)>>], Server \ {i})
        IN net' = BagAddAll(net, ms)
     /\ nhb' = nhb + 1
-    /\ UNCHANGED <<nodeVars, nprop, ncrash, ndrop, ndup, elected, gc, lcok>>
+    /\ UNCHANGED <<nodeVars, nprop, ncrash, ndrop, ndup, elected, gc, gct, lcok>>
     /\ act' = [name |-> "Heartbeat", i |-> i]
 
 (* Step prologue (raft.go 867-938): state of m.to after the term comparison, for m.tm >= term *)
@@ -276,7 +280,7 @@ Finish(m, ms) ==
 (* a message from a lower term: ignored (CheckQuorum and PreVote are off) *)
 DeliverStale(m) ==
     /\ Receivable(m) /\ m.tm < term[m.to]
-    /\ UNCHANGED <<nodeVars, elected, gc, lcok>>
+    /\ UNCHANGED <<nodeVars, elected, gc, gct, lcok>>
     /\ Finish(m, <<>>)
 
 DeliverVote(m) ==
@@ -319,7 +323,7 @@ DeliverApp(m) ==
     /\ LET i == m.to
            lg == log[i]
        IN IF R0(m) = "L"
-          THEN /\ UNCHANGED <<nodeVars, elected, gc, lcok>>
+          THEN /\ UNCHANGED <<nodeVars, elected, gc, gct, lcok>>
                /\ Finish(m, <<>>)
           ELSE IF m.ix < commit[i]
           THEN /\ Update(i, "F", T0(m), V0(m), m.fr, lg, commit[i], NoVotes, NoPr, FALSE)
@@ -364,7 +368,7 @@ DeliverAppResp(m) ==
                          ELSE [p0 EXCEPT !.next = Max2(Min2(m.ix, nextProbe + 1), 1), !.probesent = FALSE]
                    s == MaybeSendApp(i, lg, commit[i], term[i], p1, j, TRUE)
                IN IF ~decr
-                  THEN /\ UNCHANGED <<nodeVars, elected, gc, lcok>>
+                  THEN /\ UNCHANGED <<nodeVars, elected, gc, gct, lcok>>
                        /\ Finish(m, <<>>)
                   ELSE /\ Update(i, "L", term[i], vote[i], lead[i], lg, commit[i], votes[i], [pr[i] EXCEPT ![j] = s.p], FALSE)
                        /\ Hist(i, "L", term[i], lg)
@@ -374,7 +378,7 @@ DeliverHB(m) ==
     /\ Receivable(m) /\ m.ty = "HB" /\ m.tm >= term[m.to]
     /\ LET i == m.to
        IN IF R0(m) = "L"
-          THEN /\ UNCHANGED <<nodeVars, elected, gc, lcok>>
+          THEN /\ UNCHANGED <<nodeVars, elected, gc, gct, lcok>>
                /\ Finish(m, <<>>)
           ELSE /\ m.cm <= Len(log[i])           \* otherwise the library panics; unreachable in the faithful spec
                /\ Update(i, "F", T0(m), V0(m), m.fr, log[i], Max2(commit[i], m.cm), NoVotes, NoPr, FALSE)
@@ -399,14 +403,14 @@ Drop(m) ==
     /\ m \in DOMAIN net /\ ndrop < MaxDrops
     /\ net' = BagDel(net, m)
     /\ ndrop' = ndrop + 1
-    /\ UNCHANGED <<nodeVars, nprop, ncrash, ndup, nhb, elected, gc, lcok>>
+    /\ UNCHANGED <<nodeVars, nprop, ncrash, ndup, nhb, elected, gc, gct, lcok>>
     /\ act' = [name |-> "Drop", m |-> m]
 
 Dup(m) ==
     /\ m \in DOMAIN net /\ ndup < MaxDups /\ net[m] = 1
     /\ net' = BagAdd(net, m)
     /\ ndup' = ndup + 1
-    /\ UNCHANGED <<nodeVars, nprop, ncrash, ndrop, nhb, elected, gc, lcok>>
+    /\ UNCHANGED <<nodeVars, nprop, ncrash, ndrop, nhb, elected, gc, gct, lcok>>
     /\ act' = [name |-> "Dup", m |-> m]
 
 (* Crash: everything volatile is lost; the commit-only HardState written since the last synced write *)
@@ -426,7 +430,7 @@ Crash(i, keep) ==
           /\ votes' = [votes EXCEPT ![i] = NoVotes]
           /\ pr' = [pr EXCEPT ![i] = NoPr]
     /\ ncrash' = ncrash + 1
-    /\ UNCHANGED <<log, net, nprop, ndrop, ndup, nhb, elected, gc, lcok>>
+    /\ UNCHANGED <<log, net, nprop, ndrop, ndup, nhb, elected, gc, gct, lcok>>
     /\ act' = [name |-> "Crash", i |-> i, keep |-> keep]
 
 (* NewRawNode from storage (newRaft/loadState) + the Ready cycle applying the committed entries *)
@@ -434,7 +438,7 @@ Restart(i) ==
     /\ role[i] = "D"
     /\ role' = [role EXCEPT ![i] = "F"]
     /\ applied' = [applied EXCEPT ![i] = commit[i]]
-    /\ UNCHANGED <<term, vote, lead, log, commit, hs, sc, votes, pr, net, nprop, ncrash, ndrop, ndup, nhb, elected, gc, lcok>>
+    /\ UNCHANGED <<term, vote, lead, log, commit, hs, sc, votes, pr, net, nprop, ncrash, ndrop, ndup, nhb, elected, gc, gct, lcok>>
     /\ act' = [name |-> "Restart", i |-> i]
 
 Next ==
